@@ -335,6 +335,10 @@ def apply_response(resp, rd):
         resp.data = value
     elif kind == 'media':
         resp.media = value
+    elif kind == 'multi':
+        # several body sources at once (incl. empty text / data): both stacks must pick the same one
+        for k2, v2 in value:
+            setattr(resp, k2, v2)
     r = rd['raise']
     if r is None:
         return
@@ -1011,6 +1015,11 @@ _resp_body = st.one_of(
     st.tuples(st.just('text'), st.text(alphabet=st.sampled_from(list('abc \né€\U0001f600{}"')), max_size=20)).map(list),
     st.tuples(st.just('data'), st.binary(max_size=30)).map(list),
     st.tuples(st.just('media'), _resp_media).map(list),
+    st.tuples(st.just('multi'), st.lists(st.one_of(
+        st.tuples(st.just('text'), st.sampled_from(['', '', 'txt', 'é'])).map(list),
+        st.tuples(st.just('data'), st.sampled_from([b'', b'', b'dat'])).map(list),
+        st.tuples(st.just('media'), st.sampled_from([{'m': 1}, [], {}, 0, 'm'])).map(list),
+    ), min_size=2, max_size=3, unique_by=lambda kv: kv[0])).map(list),
 )
 _resp_ctypes = st.sampled_from([None, None, None, None, 'text/plain', 'text/html; charset=utf-8', 'application/json',
                                 'application/json; charset=utf-8', 'application/x-www-form-urlencoded', 'application/yaml',
